@@ -16,10 +16,10 @@ ASSUMPTIONS = ["derivative-dependent events: a crossing is counted only when |g|
                "terminal runs: only the rows actually recorded (up to the stop) are judged"]
 FLOORS = {"quick": {"crossing_steps_fwd_dense": 50, "crossing_steps_fwd_nodense": 50, "crossing_steps_bwd_dense": 50, "crossing_steps_bwd_nodense": 50,
                     "boundary_crossings": 4, "root_finder_calls_traced": 2000, "near_boundary_crossings_end": 8, "near_boundary_crossings_start": 8,
-                    "crossings_in_terminal_runs_fwd": 10, "crossings_in_terminal_runs_bwd": 10, "crossings_sharing_the_terminal_step": 6, "terminal_stops": 20, "crossings_of_extreme_scale_functions": 40, "crossings_far_from_the_origin_with_fast_dynamics": 300},
+                    "crossings_in_terminal_runs_fwd": 10, "crossings_in_terminal_runs_bwd": 10, "crossings_sharing_the_terminal_step": 6, "terminal_stops": 20, "crossings_of_extreme_scale_functions": 40, "crossings_far_from_the_origin_with_fast_dynamics": 300, "runs_after_a_survey_with_other_attributes": 8, "crossings_in_the_first_step_after_a_handover": 5},
           "thorough": {"crossing_steps_fwd_dense": 500, "crossing_steps_fwd_nodense": 500, "crossing_steps_bwd_dense": 500, "crossing_steps_bwd_nodense": 500,
                        "boundary_crossings": 40, "root_finder_calls_traced": 20000, "near_boundary_crossings_end": 40, "near_boundary_crossings_start": 40,
-                       "crossings_in_terminal_runs_fwd": 60, "crossings_in_terminal_runs_bwd": 60, "crossings_sharing_the_terminal_step": 30, "terminal_stops": 100, "crossings_of_extreme_scale_functions": 200, "crossings_far_from_the_origin_with_fast_dynamics": 1500}}
+                       "crossings_in_terminal_runs_fwd": 60, "crossings_in_terminal_runs_bwd": 60, "crossings_sharing_the_terminal_step": 30, "terminal_stops": 100, "crossings_of_extreme_scale_functions": 200, "crossings_far_from_the_origin_with_fast_dynamics": 1500, "runs_after_a_survey_with_other_attributes": 40, "crossings_in_the_first_step_after_a_handover": 25}}
 QUICK_METHODS = ["RK45CKSolver", "DOPRI45", "RK4Solver", "EulerSolver", "RK8713MSolver", "ABAs5o6HSolver", "SymplecticEulerSolver",
                  "BackwardEuler", "RadauIIA5", "GaussLegendre4", "HeunEulerSolver", "MidpointSolver"]
 CASE_TIMEOUT = 900
@@ -43,6 +43,19 @@ def gen_cases(tier, seed):
                     dtn = "float64" if rdt < 0.7 else ("float32" if rdt < 0.85 or not info["explicit"] else "longdouble")
                     cases.append(dict(kind="random", method=name, direction=d, dense=dense, t0=t0, tf=t0 + d * L, nsteps=float(rng.uniform(25, 70)), dtype=dtn,
                                       nev=nev, pseed=int(rng.integers(1 << 30)), cost=(2 if info["explicit"] else 14) * (1 + nev / 3.0)))
+    # histories: (handover) an earlier call on the same system monitored OTHER functions (as many of them) up to a time just before a crossing of the
+    # new ones - the first step of the new call contains a strict sign change; (surveyed) the same function objects were monitored before by another
+    # system while they carried other `direction` attributes
+    rngh = rng_for(803, seed)
+    for name in names:
+        for d in (1, -1):
+            for hk in ("handover", "surveyed"):
+                if tier == "quick" and rngh.random() < 0.3:
+                    continue
+                L = float(rngh.uniform(3.0, 7.0))
+                t0 = float(rngh.uniform(-4, 4))
+                cases.append(dict(kind="random", history=hk, method=name, direction=d, dense=bool(rngh.random() < 0.5), t0=t0, tf=t0 + d * L, nsteps=float(rngh.uniform(25, 70)),
+                                  dtype="float64", nev=int(rngh.integers(1, 5)), pseed=int(rngh.integers(1 << 30)), cost=(3 if M[name]["explicit"] else 18)))
     # event functions of extreme magnitude (1e-30 .. 1e12)
     for name in (["RK45CKSolver", "RK4Solver", "DOPRI45", "BackwardEuler"] if tier == "quick" else names):
         for d in (1, -1):
@@ -175,8 +188,14 @@ def run_case(spec):
             off = float(rng.uniform(0.04, 0.85)) * h * (-d if before else d)
             evspecs.append(random_event_spec(rng, prob, t0, tf, dim, terminal=False, kinds=["time", "component", "linear", "norm2"], tm=tau + off))
     else:
+        t_hand = None
         for _ in range(spec["nev"]):
             evspecs.append(random_event_spec(rng, prob, t0, tf, dim, terminal=False, scale_decades=tuple(spec.get("scale_decades", (-6, 6)))))
+        if spec.get("history") == "handover":
+            tm0 = t0 + float(rng.uniform(0.3, 0.7)) * (tf - t0)
+            evspecs[0] = random_event_spec(rng, prob, t0, tf, dim, terminal=False, kinds=["component", "linear", "time"], tm=tm0)
+            evspecs[0]["direction"] = 0
+            t_hand = tm0 - d * float(rng.uniform(0.15, 0.5)) * L / spec["nsteps"]
         if spec["nev"] >= 2 and rng.random() < 0.6:
             # different functions crossing at the SAME instant (same surface, different scale/sign): every one of them must be reported
             base_ev = evspecs[0]
@@ -194,6 +213,28 @@ def run_case(spec):
         rec.bump("runs_in_" + spec["dtype"])
     tolkw = dict(rtol=1e-6, atol=1e-8) if spec.get("dtype", "float64") != "float32" else dict(rtol=1e-3, atol=1e-4)
     system = sysrun.make_system(f, y0, t0, tf, dt_.type(L / spec["nsteps"]), info["cls"], dense=spec["dense"], **tolkw)
+    k_start = 0
+    if spec.get("history") == "surveyed":
+        saved = [e.direction for e in events]
+        for e in events:
+            e.direction = 1
+        try:
+            scout = sysrun.make_system(f, y0.copy(), t0, tf, dt_.type(L / spec["nsteps"]), info["cls"], dense=False, **tolkw)
+            sc_ = sysrun.call_integrate(scout, t=t0 + 0.4 * (tf - t0), events=events, max_steps=20000)
+            if not sc_["raised"]:
+                rec.bump("runs_after_a_survey_with_other_attributes")
+                feats["history"] = "surveyed"
+        finally:
+            for e, di_ in zip(events, saved):
+                e.direction = di_
+    if spec.get("history") == "handover" and t_hand is not None:
+        # the sign-flipped twins of the case's functions are monitored up to the hand-over time; the case's own functions from there
+        pre_events = [Ev(dict(s_, scale=-float(s_["scale"]), direction=0), dim) for s_ in evspecs]
+        pre = sysrun.call_integrate(system, t=t_hand, events=pre_events, max_steps=20000)
+        if not pre["raised"] and len(system) > 1:
+            k_start = len(system) - 1
+            rec.bump("runs_handed_over_from_a_call_with_other_functions")
+            feats["history"] = "handover"
     trace = DetectionTrace()
     try:
         seg = sysrun.call_integrate(system, events=events, max_steps=20000)
@@ -234,7 +275,7 @@ def run_case(spec):
         # rows bit-exactly at its end points: the detection sees exactly the signs computed here, so no rounding guard is needed
         guard = 1e3 * eps * ev.gscale(tmax if ev.kind == "time" else ymax) if ev.kind == "dstate" else 0.0
         times = reported.get(id(ev), [])
-        k = 0
+        k = k_start
         while k < len(t) - 1:
             a, b = g[k], g[k + 1]
             k2 = k + 1
@@ -257,6 +298,8 @@ def run_case(spec):
                         rec.bump("crossings_of_extreme_scale_functions")
                     if spec["kind"] == "far_fast":
                         rec.bump("crossings_far_from_the_origin_with_fast_dynamics")
+                    if k_start and k == k_start:
+                        rec.bump("crossings_in_the_first_step_after_a_handover")
                     if spec["kind"] == "near_boundary" and min(abs(a), abs(b)) <= 64 * eps * ev.gscale(tmax if ev.kind == "time" else ymax):
                         rec.bump("near_boundary_crossings")
                         rec.bump("near_boundary_crossings_%s" % ("end" if abs(b) < abs(a) else "start"))
